@@ -40,7 +40,9 @@ FAMILY = {"CInt": "cast-numeric", "CFloat": "cast-numeric", "CComplex": "cast-nu
 
 
 def case_v(tt, v, self_cid=0):
-    return "v|%s|%s|%s" % (V.env_for([V.parse_sexp(tt)], [V.parse_sexp(v)], self_cid), tt, v)
+    with V.falsy(V.falsy_mode(tt + "|" + v)):      # bool(v) of a HasTraits value is part of the cast table
+        env = V.env_for([V.parse_sexp(tt)], [V.parse_sexp(v)], self_cid)
+    return "v|%s|%s|%s" % (env, tt, v)
 
 
 def corpus():
@@ -308,6 +310,13 @@ def first_non_traiterror(outs):
 
 
 def run_v(env, tt, v):
+    mode = V.falsy_mode(tt + "|" + v)
+    with V.falsy(mode):
+        out, hits, tags = run_v1(env, tt, v)
+    return out, hits, list(tags) + ["owner:" + ("truthy", "bool-false", "len-zero")[mode]]
+
+
+def run_v1(env, tt, v):
     ctx = V.Ctx()
     obj = the_object(ctx)
     tterm = V.parse_sexp(tt)
